@@ -24,6 +24,10 @@ DT = F(1, 4)
 def job_fn(job):
     spec = job['spec']
     ct = build_python(spec)
+    if 'integer-delays' in job['key']:
+        # the same delays given as Python integers (time units)
+        ct.update_var(edge_vars=[(e.src, e.tgt, {'delay': int(e.delay)}) for e in spec.edges
+                                 if e.delay is not None and F(e.delay).denominator == 1])
     tally = decide.Tally()
     try:
         c = tv.compile_template(ct, vectorize=job['vectorize'], step_size=float(DT), solver=job['solver'])
